@@ -959,11 +959,20 @@ class AsyncIteratorQueue(IteratorQueue[_ValueT], AsyncIterableQueue[_ValueT]):
       self, iterator: _MaybeAwaitable[AsyncIterable[_ValueT]]
   ):
     """Iterates through a generator while enqueue its elements."""
-    if isinstance(iterator, Awaitable):
-      iterator = await iterator
-    if not isinstance(iterator, AsyncIterator):
-      iterator = aiter(iterator)
     self._start_enqueue()
+    try:
+      if isinstance(iterator, Awaitable):
+        iterator = await iterator
+      if not isinstance(iterator, AsyncIterator):
+        iterator = aiter(iterator)
+    except Exception as e:  # pylint: disable=broad-exception-caught
+      # Same as enqueue_from_iterator: the iterable can fail before yielding
+      # anything, the consumers have to see this as any other enqueue failure.
+      e.add_note(f'Exception during async enqueueing {self.name}')
+      logging.exception('chainable: %s', f'{self.name} enqueue failed.')
+      self._exception = e
+      self._stop_enqueue()
+      raise e
     # Same as enqueue_from_iterator: stops after a stop request or a failure of
     # another enqueuer instead of draining the iterator for nothing.
     while not self.enqueue_done:
